@@ -159,6 +159,17 @@ pub enum ConnectionDirection {
 #[derive(Debug, Clone, PartialEq, Eq)]
 pub struct WhoAreYouRef(pub NodeAddress, MessageNonce);
 
+#[cfg(feature = "verif-hooks")]
+impl WhoAreYouRef {
+    pub(crate) fn verif_new(node_address: NodeAddress, nonce: MessageNonce) -> Self {
+        WhoAreYouRef(node_address, nonce)
+    }
+
+    pub(crate) fn verif_nonce(&self) -> MessageNonce {
+        self.1
+    }
+}
+
 #[derive(Debug)]
 /// A Challenge (WHOAREYOU) object used to handle and send WHOAREYOU requests.
 pub struct Challenge {
@@ -241,6 +252,10 @@ impl Handler {
         key: Arc<RwLock<CombinedKey>>,
         config: Config,
     ) -> Result<HandlerReturn, std::io::Error> {
+        #[cfg(feature = "verif-hooks")]
+        if let Some(scripted) = crate::verif::take_scripted_handler() {
+            return Ok(scripted);
+        }
         let (exit_sender, exit) = oneshot::channel();
         // create the channels to send/receive messages from the application
         let (handler_send, service_recv) = mpsc::unbounded_channel();
